@@ -8,7 +8,9 @@ pub mod c01;
 pub mod c03;
 pub mod c04;
 pub mod c05;
+pub mod c09;
 pub mod c11;
+pub mod c14;
 pub mod pad;
 pub mod mux;
 
@@ -37,6 +39,16 @@ pub fn dispatch(prop: &str, ctx: Ctx, replay: Option<&str>) -> i32 {
             crate::run::start_watchdog(std::time::Duration::from_secs(180), None);
             let rep = c11::run(ctx);
             finish(rep, c11::meta(), ctx.tier, ctx.seed, started)
+        }
+        "C09" => {
+            crate::run::start_watchdog(std::time::Duration::from_secs(180), None);
+            let rep = c09::run(ctx);
+            finish(rep, c09::meta(), ctx.tier, ctx.seed, started)
+        }
+        "C14" => {
+            crate::run::start_watchdog(std::time::Duration::from_secs(240), None);
+            let rep = c14::run(ctx);
+            finish(rep, c14::meta(), ctx.tier, ctx.seed, started)
         }
         "C03" => {
             let mut rep = Report::new("C03");
@@ -86,6 +98,28 @@ pub fn replay_file(prop: &str, path: &str) -> i32 {
             }
             println!("replayed {reps}x: {bad} problem(s)");
             if bad > 0 { 1 } else { 0 }
+        }
+        Some("c14") => {
+            let Some(c) = c14::HbCase::from_json(&case) else {
+                eprintln!("bad c14 case");
+                return 2;
+            };
+            let mut o = c14::run_case(&c);
+            c14::judge(&c, &mut o);
+            println!("{:?}", o);
+            if o.problems.is_empty() { 0 } else { 1 }
+        }
+        Some("c09") => {
+            let Some(fc) = c09::FaultCase::from_json(&case) else {
+                eprintln!("bad c09 case");
+                return 2;
+            };
+            let o = c09::run_fault(&fc);
+            println!("fired={} waiters={} hits={}", o.fired, o.waiters, o.hits);
+            for (sym, det) in &o.problems {
+                println!("VIOLATION property={prop} replay={path}\n  symptom: {sym}\n  detail: {det}");
+            }
+            if o.problems.is_empty() { 0 } else { 1 }
         }
         _ => {
             eprintln!("replay not supported for this case kind");
